@@ -316,6 +316,13 @@ def run(ctx, prop):
                         {"error": f"{prof} build " + ("refused a struct whose size fits the machine word" if fits else "accepted a struct whose size does not fit the machine word"),
                          "size": str(math_size), "rc": rc}]})
             distinct.add(("size-limit", case["id"]))
+    # ---- the shared over-limit family (vlib/bounds.py): methods that need more than 15 arguments
+    # of one class — declared in the file or inherited from an included ancestor, with 16, 17 and
+    # 256 arguments — must be refused by both builds; accepted ones overflow the u8 counters of the
+    # generators (panic in debug, wrap-around in release)
+    from .. import bounds as BD
+    hist["over_limit_runs"] = BD.must_refuse_family(ctx, oracle_fail, profiles=("debug", "release"), modes=("c", "cpp-skel", "rust", "java"), label="C16-over-limit")
+    ctx.bump("evaluations", hist["over_limit_runs"])
     known_lines = []
     for kid, k in listed.items():
         if kid in known_seen:
